@@ -227,6 +227,35 @@ fn case(t: &mut Tape, st: &mut Stats, max_depth: usize) -> Verdict {
     let n = 1 + g.t.len(7);
     let lines = g.body_lines(0, n, 0, st);
     g.files[0].lines = lines;
+    // one tree in forty gets, at the end of the root file, a chain of 65..160 files each including the next (with lines
+    // before and after the directive), or one directive naming 40..120 files
+    if g.t.chance(1, 40) {
+        if g.t.flip() {
+            let n = 65 + g.t.below(96);
+            let first = g.files.len();
+            for i in 0..n {
+                let mut lines = vec![Line::Text(format!("emit chain {} ${{v}}", i))];
+                if i + 1 < n {
+                    lines.push(Line::Include(vec![(format!("./c{}.ds", i + 1), first + i + 1)]));
+                    lines.push(Line::Text(format!("emit back-in {}", i)));
+                }
+                g.files.push(FileSpec { rel: format!("chain/c{}.ds", i), lines });
+            }
+            g.files[0].lines.push(Line::Include(vec![("./chain/c0.ds".to_string(), first)]));
+            st.class("include-chain-deeper-than-64");
+        } else {
+            let n = 40 + g.t.below(81);
+            let first = g.files.len();
+            let mut named = vec![];
+            for i in 0..n {
+                g.files.push(FileSpec { rel: format!("wide/w{}.ds", i), lines: vec![Line::Text(format!("emit wide {}", i))] });
+                named.push((format!("wide/w{}.ds", i), first + i));
+            }
+            g.files[0].lines.push(Line::Include(named));
+            st.class("directive-naming-40-or-more-files");
+        }
+        g.files[0].lines.push(Line::Text("emit after-the-big-include".to_string()));
+    }
     let files = g.files.clone();
     // planted fault?
     let fault = g.t.weighted(&[6, 1, 1]);
@@ -456,7 +485,7 @@ fn case_t(t: &mut Tape, st: &mut Stats) -> Verdict {
 pub fn property() -> Property {
     Property {
         id: "C14",
-        rule: "acyclic include trees (depth <= 3 quick / 5 thorough, <= 9 files) written to a tmpfs scratch directory: files in nested directories (names with spaces and non-ASCII), referenced by ./relative, bare relative, ../ and absolute paths, directives listing several files or the same leaf file twice, at first / middle / last line; bodies made of emit / set / if-blocks / function definitions (called from later files) / run-time errors with get_last_error_line/source probes. Oracle: (1) parse_file(root) equals parse_text(paste(root)) instruction for instruction (own recursive inliner; directive line = no-op placeholder), (2) every instruction's meta_info is (canonical path of the file it was written to, its line there), (3) run_script_file(root) and run_script(pasted) give the same emit trace, final variables and outcome, (4) planted faults: a missing file gives ErrorReadingFile naming it, a malformed line (C08 kinds) gives the matching kind with that file and line, run-time errors in included code report the included file and its own line. Non-trivial: tree depth >= 2, a file included twice, or an include not at line 1; distinct by tree",
+        rule: "acyclic include trees (depth <= 3 quick / 5 thorough, <= 9 files) written to a tmpfs scratch directory: files in nested directories (names with spaces and non-ASCII), referenced by ./relative, bare relative, ../ and absolute paths, directives listing several files or the same leaf file twice, at first / middle / last line (one tree in forty ends with a chain of 65..160 files each including the next, or with one directive naming 40..120 files); bodies made of emit / set / if-blocks / function definitions (called from later files) / run-time errors with get_last_error_line/source probes. Oracle: (1) parse_file(root) equals parse_text(paste(root)) instruction for instruction (own recursive inliner; directive line = no-op placeholder), (2) every instruction's meta_info is (canonical path of the file it was written to, its line there), (3) run_script_file(root) and run_script(pasted) give the same emit trace, final variables and outcome, (4) planted faults: a missing file gives ErrorReadingFile naming it, a malformed line (C08 kinds) gives the matching kind with that file and line, run-time errors in included code report the included file and its own line. Non-trivial: tree depth >= 2, a file included twice, or an include not at line 1; distinct by tree",
         assumptions: &[
             "cyclic trees are not generated (C07 covers the cycle probe); no line-valued jumps in bodies",
             "paths are compared after canonicalisation",
@@ -469,7 +498,7 @@ pub fn property() -> Property {
                     Tier::Thorough => Plan::Skip,
                 },
                 case: case_q,
-                min_classes: &[("tree-depth-2", 500), ("file-included-twice", 100), ("include-not-at-first-line", 1000), ("planted-missing-file", 200), ("planted-malformed-line", 500), ("runtime-error-inside-included-file", 100)],
+                min_classes: &[("tree-depth-2", 500), ("file-included-twice", 100), ("include-not-at-first-line", 1000), ("planted-missing-file", 200), ("planted-malformed-line", 500), ("runtime-error-inside-included-file", 100), ("include-chain-deeper-than-64", 150), ("directive-naming-40-or-more-files", 150)],
             },
             Section {
                 name: "deep-trees",
